@@ -108,6 +108,7 @@ func main() {
 	_ = replayF
 	run = ev.Begin(*prop, *tier, "exploration")
 
+	tablesAtStart := exportedTablesDigest()
 	msgTypes()
 	errnos()
 	errnoConsumers()
@@ -119,6 +120,16 @@ func main() {
 	normalizations()
 	eventTypes()
 	firstCalls()
+	// the published tables are data: after everything above - and after the parser, the printers and the stringers have
+	// seen codes and names that are in no table - they hold what they held at the start, and the arch tables are still
+	// each other's inverse through the rule builder
+	unknownInputs()
+	if d := exportedTablesDigest(); d != tablesAtStart {
+		rep("exported-table-changed-by-use", "the exported tables differ after use:\n%s", diffLines(tablesAtStart, d))
+	} else {
+		nontriv++
+	}
+	arches()
 
 	run.Set("evaluations", evals)
 	run.Set("distinct_nontrivial", nontriv)
@@ -503,6 +514,76 @@ func syscallConsumers() {
 				nontriv++
 			}
 		}
+	}
+}
+
+// exportedTablesDigest renders the exported lookup maps of auparse in sorted text form.
+func exportedTablesDigest() string {
+	var out []string
+	for k, v := range auparse.AuditArchNames {
+		out = append(out, fmt.Sprintf("arch %#x=%s", uint32(k), v))
+	}
+	for k, v := range auparse.AuditErrnoToName {
+		out = append(out, fmt.Sprintf("errno %d=%s", k, v))
+	}
+	for k, v := range auparse.AuditErrnoToNum {
+		out = append(out, fmt.Sprintf("errname %s=%d", k, v))
+	}
+	for a, t := range auparse.AuditSyscalls {
+		out = append(out, fmt.Sprintf("syscalls %s: %d rows", a, len(t)))
+		for n, name := range t {
+			out = append(out, fmt.Sprintf("sys %s %d=%s", a, n, name))
+		}
+	}
+	sort.Strings(out)
+	return strings.Join(out, "\n")
+}
+
+func diffLines(a, b string) string {
+	am, bm := map[string]bool{}, map[string]bool{}
+	for _, l := range strings.Split(a, "\n") {
+		am[l] = true
+	}
+	for _, l := range strings.Split(b, "\n") {
+		bm[l] = true
+	}
+	var out []string
+	for l := range am {
+		if !bm[l] {
+			out = append(out, "- "+l)
+		}
+	}
+	for l := range bm {
+		if !am[l] {
+			out = append(out, "+ "+l)
+		}
+	}
+	sort.Strings(out)
+	if len(out) > 12 {
+		out = out[:12]
+	}
+	return strings.Join(out, "\n")
+}
+
+// unknownInputs feeds codes and names that are in no table through every consumer: stringers, the parser (SYSCALL
+// records with unknown arch / syscall / errno), the rule printer and builder.
+func unknownInputs() {
+	for _, a := range []uint32{0xc00000f7, 0x1, 0xffffffff, 0x40000099, 0} {
+		_ = auparse.AuditArch(a).String()
+		for _, nr := range []int{0, 59, 99999} {
+			raw := fmt.Sprintf("audit(1700000000.123:7): arch=%x syscall=%d success=no exit=-4321 a0=1 items=0 pid=1 exe=\"/x\"", a, nr)
+			if m, err := auparse.Parse(auparse.AUDIT_SYSCALL, raw); err == nil {
+				_, _ = m.Data()
+				_ = m.ToMapStr()
+			}
+		}
+		evals++
+	}
+	for _, l := range []string{"-a always,exit -F arch=unknown[c00000f7] -S 1", "-a always,exit -F arch=3221225719 -S 1", "-a always,exit -F arch=nosucharch -S open", "-a always,exit -F exit=-ENOSUCH", "-a always,exit -S nosuchsyscall"} {
+		if w, err := buildLine(l); err == nil {
+			_, _ = rule.ToCommandLine(rule.WireFormat(w), false)
+		}
+		evals++
 	}
 }
 
@@ -961,8 +1042,8 @@ func normalizations() {
 					}
 				}
 				line := "type=" + r + " msg=audit(1.002:3): " + body
-				var actions [2]string
-				for k := 0; k < 2; k++ {
+				var actions [16]string
+				for k := 0; k < 16; k++ {
 					m, err := auparse.ParseLogLine(line)
 					if err != nil {
 						continue
@@ -973,8 +1054,14 @@ func normalizations() {
 					}
 				}
 				evals++
-				if actions[0] != actions[1] {
-					rep("normalization-selection-nondeterministic:"+r, "record %q selects action %q then %q", line, actions[0], actions[1])
+				differs := ""
+				for k := 1; k < 16; k++ {
+					if actions[k] != actions[0] {
+						differs = actions[k]
+					}
+				}
+				if differs != "" {
+					rep("normalization-selection-nondeterministic:"+r, "record %q selects action %q and, coalesced again, %q", line, actions[0], differs)
 				} else {
 					nontriv++
 				}
